@@ -164,6 +164,8 @@ pub struct ExecSummary {
     pub pool: usize,
     pub harness_violations: Vec<String>,
     pub faulted_dispatches: usize,
+    pub async_rounds_with_two_dispatches: usize,
+    pub async_rounds_with_a_peek: usize,
 }
 
 fn add_stats(a: &mut EStats, b: &EStats) {
@@ -265,7 +267,7 @@ pub fn exec_sync_with_fault(inst: &mut Inst, m: DMode, dp: &DriverPlan, ndisp: u
                 continue;
             }
         }
-        let opts = EOpts { expect_tl: m.runs_tl(), caller_thread: out.caller, outer_mode: m.outer(), top_mult: 1, partial };
+        let opts = EOpts { expect_tl: m.runs_tl(), caller_thread: out.caller, outer_mode: m.outer(), top_mult: 1, partial, tl_mult: None };
         let st = e_oracle(&inst.plan, &out.events, &opts, &mut sum.findings);
         sum.order_hashes.push(st.order_hash);
         add_stats(&mut sum.est, &st);
@@ -308,14 +310,15 @@ pub fn exec_sync_with_fault(inst: &mut Inst, m: DMode, dp: &DriverPlan, ndisp: u
 
 /// Executes the plan on the async dispatcher (twin layout supplied by the caller).
 #[cfg(feature = "parallel")]
-pub fn exec_async(plan: &Plan, twin: &Layout, pool: &Pool, pool_size: usize, dp: &DriverPlan, ndisp: usize, pool_ok: bool, sum: &mut ExecSummary) {
+pub fn exec_async(plan: &Plan, twin: &Layout, pool: &Pool, pool_size: usize, dp: &DriverPlan, ndisp: usize, pool_ok: bool, hseed: u64, sum: &mut ExecSummary) {
     use crate::res::full_world;
     use crate::sys::instantiate;
     use std::panic::{catch_unwind, AssertUnwindSafe};
     sum.mode = "async dispatch+wait".into();
     sum.pool = pool_size;
     let (ev, _) = plan_runs(plan);
-    let ctx = Ctx::new(plan.n_uids().max(1), ev + 64);
+    // a round may hold two dispatches
+    let ctx = Ctx::new(plan.n_uids().max(1), 2 * ev + 64);
     let b = match catch_unwind(AssertUnwindSafe(|| instantiate(plan, &ctx, Some(pool)))) {
         Ok(b) => b,
         Err(_) => {
@@ -359,11 +362,36 @@ pub fn exec_async(plan: &Plan, twin: &Layout, pool: &Pool, pool_size: usize, dp:
         ctx.set_mode(Mode::Run);
         let caller = tid();
         ctx.disp_begin();
+        // a small history per round: one or two dispatch requests back to back, optionally a
+        // non-blocking / blocking look at the dispatcher, then wait()
+        let hb = mix(hseed, di as u64);
+        let k = if hb % 3 == 0 { 2 } else { 1 };
+        let peek = (hb >> 8) % 6;
         let r = catch_unwind(AssertUnwindSafe(|| {
-            ad.dispatch();
+            for _ in 0..k {
+                ad.dispatch();
+            }
+            match peek {
+                0 => {
+                    let _ = ad.running();
+                }
+                1 => {
+                    let t = std::time::Instant::now();
+                    while ad.running() && t.elapsed() < Duration::from_secs(8) {
+                        std::thread::yield_now();
+                    }
+                }
+                2 => {
+                    let _ = ad.world();
+                }
+                3 => ad.wait_without_tl(),
+                _ => {}
+            }
             ad.wait();
         }));
         ctx.disp_end();
+        sum.async_rounds_with_two_dispatches += (k == 2) as usize;
+        sum.async_rounds_with_a_peek += (peek < 4) as usize;
         ctx.set_mode(Mode::Build);
         ctx.disarm();
         sum.dispatches += 1;
@@ -387,7 +415,7 @@ pub fn exec_async(plan: &Plan, twin: &Layout, pool: &Pool, pool_size: usize, dp:
             continue;
         }
         let evs = ctx.log.since(0);
-        let opts = EOpts { expect_tl: true, caller_thread: caller, outer_mode: "async" , top_mult: 1, partial: false};
+        let opts = EOpts { expect_tl: true, caller_thread: caller, outer_mode: "async", top_mult: k, partial: false, tl_mult: Some(1) };
         let st = e_oracle(plan, &evs, &opts, &mut sum.findings);
         sum.order_hashes.push(st.order_hash);
         add_stats(&mut sum.est, &st);
@@ -631,10 +659,14 @@ pub fn case(prop: &str, up: &'static str, rng: &mut Rng, pools: &mut Pools, rep:
         // every sixth executed plan: one system panics in the first dispatch (caught by the caller)
         let fault = if rng.chance(1, 6) {
             let mut v = Vec::new();
-            plan.walk(&mut |it, _| {
-                if let Item::Sys(s) = it {
-                    v.push(s.uid)
+            plan.walk(&mut |it, d| match it {
+                Item::Sys(s) => v.push(s.uid),
+                // a failing thread-local system (top level) for the thread-local property
+                Item::Tl(t) if up == "C12" && d == 0 && mode.runs_tl() => {
+                    v.push(t.uid);
+                    v.push(t.uid);
                 }
+                _ => {}
             });
             if v.is_empty() { None } else { Some(*rng.pick(&v)) }
         } else {
@@ -644,7 +676,7 @@ pub fn case(prop: &str, up: &'static str, rng: &mut Rng, pools: &mut Pools, rep:
             RunMode::Sync(m) => exec_sync_with_fault(&mut inst, m, &dp, ndisp, pool_ok, fault, &mut sum),
             RunMode::Async => {
                 #[cfg(feature = "parallel")]
-                exec_async(&plan, &inst.layout, &pool, pool_size, &dp, ndisp, pool_ok, &mut sum);
+                exec_async(&plan, &inst.layout, &pool, pool_size, &dp, ndisp, pool_ok, rng.next(), &mut sum);
             }
         }
         findings.append(&mut sum.findings);
@@ -659,6 +691,8 @@ pub fn case(prop: &str, up: &'static str, rng: &mut Rng, pools: &mut Pools, rep:
         rep.metric("tl_windows", sum.est.tl_windows as i64);
         rep.metric("inner_epochs", sum.est.inner_epochs as i64);
         rep.metric("dispatches_cut_short_by_an_injected_panic", sum.faulted_dispatches as i64);
+        rep.metric("async_rounds_with_two_dispatches", sum.async_rounds_with_two_dispatches as i64);
+        rep.metric("async_rounds_with_a_peek", sum.async_rounds_with_a_peek as i64);
         rep.metric("hold_reached", sum.hold_reached as i64);
         rep.metric("hold_capped", sum.hold_capped as i64);
         rep.metric("overlap_rendezvous_completed", sum.overlap_completed as i64);
